@@ -12,6 +12,7 @@ import (
 	"github.com/go-i2p/common/encrypted_leaseset"
 	"github.com/go-i2p/common/key_certificate"
 	"github.com/go-i2p/common/keys_and_cert"
+	"github.com/go-i2p/common/offline_signature"
 	"github.com/go-i2p/common/router_identity"
 	"github.com/go-i2p/common/session_key"
 	"github.com/go-i2p/common/session_tag"
@@ -762,6 +763,38 @@ func runC19(c *core.Ctx) {
 	})
 
 	// encrypted leaseset: the two constructors with the same arguments
+	// an offline signature read from bytes versus one built from the fields just read: the reader
+	// and the constructor accept the same (transient type, destination type, key, signature)
+	// combinations — every pair of types, whose key and signature lengths mostly differ
+	c.Job("offline-read-vs-new", c.N(1200, 24000), func(i int, r *core.Rand) {
+		dts := []int{0, 1, 2, 3, 4, 5, 6, 7, 8, 11}
+		ds := dts[i%len(dts)]
+		tt := dts[(i/len(dts))%len(dts)]
+		m := gen.OfflineOf(r, ds, tt)
+		if i%7 == 0 {
+			m.Expires = []uint32{1, 0xffffffff, 0x80000000}[r.Pick(3)]
+		}
+		enc := m.Encode()
+		c.Eval(1)
+		a := entryOut{name: "offline_signature.ReadOfflineSignature", whole: true}
+		c.Call(a.name, enc, func() {
+			o, rem, err := offline_signature.ReadOfflineSignature(enc, uint16(ds))
+			a.err = err
+			if err == nil && len(rem) == 0 {
+				a.ok, a.ser = true, o.Bytes()
+			}
+		})
+		b := entryOut{name: "offline_signature.NewOfflineSignature", whole: true}
+		c.Call(b.name, enc, func() {
+			o, err := offline_signature.NewOfflineSignature(m.Expires, m.SigType, m.TransientKey, m.Sig, uint16(ds))
+			b.err = err
+			if err == nil {
+				b.ok, b.ser = true, o.Bytes()
+			}
+		})
+		compareEntries(c, "offline/read-vs-new", enc, gen.Shape{"dest_sig": ds, "transient": tt}, []entryOut{a, b})
+	})
+
 	c.Job("els-ctors", c.N(500, 8000), func(i int, r *core.Rand) {
 		st := []int{7, 11}[i%2]
 		key, _ := rm.NewSigKey(st, r)
